@@ -304,6 +304,37 @@ def declare(reg):
                  modifies=["self.g_out"],
                  ghost={"varargs": "data"}, note="A-ASYNC: hands the data to the client's socket in order (ghost g_out records it)")
 
+    # ---- Mailbox.selected: the snapshot a SELECT answers with is taken in the same step that registers the session (C01) ----
+    reg.contract(
+        P, "Mailbox.selected", uses_invariant=True,
+        params={"self": "ref:Mailbox", "client": "ref:Authenticated"}, ret="list[str]",
+        requires={
+            # DESIGN assumption "distinct sessions are distinct objects": the session is not registered here under another name
+            "fresh-client": "forall(lambda p: implies(p in self.clients and p != client.name, get(self.clients, p) != client and get(self.clients, p).client != client.client), 'str')",
+        },
+        ensures={
+            "exists-is-the-message-count": "len(result) >= 1 and result[0] == '* ' + str(len(self.msg_keys)) + ' EXISTS\\r\\n'",
+            "registered": "client.name in self.clients and get(self.clients, client.name) == client",
+            "others-stay": "forall(lambda p: implies(p != client.name, (p in self.clients) == (p in old(self.clients)) and get(self.clients, p) == get(old(self.clients), p)), 'str')",
+        },
+        raises={"No": "'\\\\Noselect' in self.attributes"},
+        exc_ensures={"not-registered": "same(self.clients, old(self.clients))"},
+        modifies=["self.clients"],
+        loops={0: {"invariant": {"head-kept": "len(push_data) >= 1 and push_data[0] == lpre(push_data)[0]",
+                                  "keys-only": "forall(lambda s: implies(s in _it, s in lpre(self.sequences)), 'str')",
+                                  "sequences-untouched": "same(self.sequences, lpre(self.sequences))"}}},
+        keeps_invariant=True, is_async=True,
+        props=["C01"],
+    )
+
+    reg.contract(
+        P, "Mailbox.unselected", uses_invariant=True, params={"self": "ref:Mailbox", "client_name": "str"},
+        ensures={"gone": "client_name not in self.clients",
+                 "others-stay": "forall(lambda p: implies(p != client_name, (p in self.clients) == (p in old(self.clients)) and get(self.clients, p) == get(old(self.clients), p)), 'str')"},
+        modifies=["self.clients"], keeps_invariant=True,
+        props=["C01"],
+    )
+
     NF = "(s == 'Recent' or ite(s == 'Seen', not mem(msg_seqs, 'unseen', k), mem(msg_seqs, s, k)))"
     reg.contract(
         P, "Mailbox.check_new_msgs_and_flags", uses_invariant=True,
@@ -406,6 +437,38 @@ def declare(reg):
         },
         props=["C15", "C03", "C05"],
         note="verified up to the cut point (the message-set expansion); the copy itself is not under contract",
+    )
+    # ---- copy(), second part (C10): the source mailbox is released BEFORE the command queues on the destination -------------
+    reg.dynamic_dispatch[r"aiofiles\.os\.path\.getmtime\(mbox_msg_path\(self\.mailbox, msg_key\)\)"] = "aio.msg_mtime"
+    reg.contract("<aiofiles>", "aio.msg_mtime", params={"self": "ref:Mailbox", "path": "opaque:Path"}, ret="float", raises={"FileNotFoundError": None},
+                 trusted=True, yields=True, note="A-OS: mtime of a message file")
+    reg.contract("<stdlib>", "MH.get_bytes", params={"self": "ref:MH", "key": "str"}, ret="str", raises={"KeyError": None}, trusted=True, note="A-MH: raw bytes of a stored message")
+    reg.contract("<stdlib>", "os.path.join", params={"a": "opaque:ctx_tmp_dir", "b": "str"}, ret="str", trusted=True, note="path inside the private temporary directory")
+    reg.context_managers.append((r"open\(msg_path, 'wb'\)", "opaque"))
+    reg.dropped_calls.add("f.write")
+    reg.contract("asimap/parse.py", "IMAPClientCommand.__init__", params={"self": "ref:IMAPClientCommand", "imap_command": "str"},
+                 ensures={"fresh-not-completed": "not result.completed"}, trusted=True, note="plain field initialisation; the phony APPEND command is a fresh object")
+    reg.contract(
+        P, "Mailbox.copy#release", uses_invariant=True,
+        params={"self": "ref:Mailbox", "msg_set": "list[MsgElt]", "dst_mbox": "ref:Mailbox", "uid_command": "bool",
+                "imap_cmd": "opt[ref:IMAPClientCommand]"},
+        requires={"wf": "wf_msgset(msg_set)", "non-empty": "len(self.msg_keys) > 0"},
+        raises={"Bad": None, "MailboxInconsistency": None, "FileNotFoundError": None, "KeyError": None, "IndexError": None},
+        modifies=["IMAPClientCommand.completed", "IMAPClientCommand.command"],
+        loops={0: {"invariant": {
+            "mapped": "forall(lambda n: (n in msg_idxs) == (1 <= n and n <= len(self.uids) and self.uids[n - 1] in uid_list and pos(uid_list, self.uids[n - 1]) < _i))",
+        }}, 1: {"invariant": {"flags-kept": "forall(lambda s, k: mem(self.sequences, s, k) == mem(lpre(self.sequences), s, k), 'str', 'int')"}}},
+        locals_={"msg_idxs": "list[int]", "copy_msgs": "list[tuple[str,list[str],float]]", "src_uids": "list[int]"},
+        ghost={
+            "cut": {"before_with": r"append_imap_cmd\.ready_and_okay\(dst_mbox\)", "asserts": {
+                # "COPY/MOVE count as their documented steps: read the source, add to the destination": when the command starts to wait
+                # for the destination mailbox it no longer occupies the source, so two opposite-direction copies cannot wait for each other
+                "source-released-before-waiting": "is_none(imap_cmd) or some(imap_cmd).completed",
+                "waits-with-a-fresh-command": "append_imap_cmd != some(imap_cmd) or is_none(imap_cmd)",
+            }},
+        },
+        props=["C10"],
+        note="second contract on Mailbox.copy: verified from entry up to the point where it queues on the destination mailbox (cut at `async with append_imap_cmd.ready_and_okay(dst_mbox)`)",
     )
     for pid in ("C15", "C05"):
         reg.properties.setdefault(pid, {}).setdefault("bounded", []).append(
